@@ -41,23 +41,40 @@ def run(tier, seed, rep, replay=None):
             continue
         if not expect_ok:
             continue
+        # (c) every real job inside one rule of every example map -- independent of the model
+        for x in range(nx):
+            for y in range(ny):
+                tile = r["tiles"][f"{x},{y}"]
+                for kind in ("wide", "narrow"):
+                    for (ln, s, d) in tile[kind]:
+                        for ex, rules in maps:
+                            for what, a in (("source", s), ("destination", d)):
+                                if not any(lo <= a and a + ln <= hi for _, lo, hi in rules):
+                                    rep.fail(f"C19:outside-map:{c['type']}", f"traffic type {c['type']} ({c['rw']}, tile ({x},{y}), "
+                                             f"bursts {c['wbl']}/{c['nbl']}, seed {c['seed']}): {what} range [{hex(a)}, +{ln}) of a "
+                                             f"{kind} job is inside no rule of the address map of {ex}",
+                                             {"run": c, "tile": [x, y]}, observed=[ln, hex(s), hex(d)],
+                                             expected="inside one mapped range")
         # the uniform oracle: draws come in (x, y) pairs, re-drawn while equal to the local tile
         draws = list(r["draws"])
         di = 0
-        for x in range(nx):
-            for y in range(ny):
-                ox = oy = 0
-                if c["type"] == "uniform":
-                    while True:
-                        ox, oy = draws[di], draws[di + 1]
-                        di += 2
-                        if (ox, oy) != (x, y):
-                            break
-                    if not (0 <= ox < nx and 0 <= oy < ny):
-                        rep.fail("C19:oracle-out-of-range", f"uniform pattern drew tile ({ox},{oy}) for tile ({x},{y}) "
-                                 f"with {c}", {"run": c}, observed=[ox, oy], expected=f"0..{nx-1} x 0..{ny-1}")
-                reqs.append(common.sx(["c19", c["type"], x, y, c["rw"] == "read", ox, oy, int(wide_len)]))
-                meta.append((c, x, y, r["tiles"][f"{x},{y}"]))
+        try:
+            for x in range(nx):
+                for y in range(ny):
+                    ox = oy = 0
+                    if c["type"] == "uniform":
+                        while True:
+                            ox, oy = draws[di], draws[di + 1]
+                            di += 2
+                            if (ox, oy) != (x, y):
+                                break
+                    reqs.append(common.sx(["c19", c["type"], x, y, c["rw"] == "read", ox, oy, int(wide_len)]))
+                    meta.append((c, x, y, r["tiles"][f"{x},{y}"]))
+            if c["type"] == "uniform" and di != len(draws):
+                raise IndexError("draws left over")
+        except IndexError:
+            rep.corr_broken(f"the random draws of the uniform pattern no longer have the modelled structure "
+                            f"(pairs of randint(0,NUM_X-1), randint(0,NUM_Y-1)): {draws[:8]}...", {"run": c})
     outs = common.run_model(reqs)
     for (c, x, y, tile), out in zip(meta, outs):
         evaluations += 1
@@ -65,16 +82,6 @@ def run(tier, seed, rep, replay=None):
         model = [list(j) for j in out[1]] if out[0] == "ok" else None
         for kind, reps in (("wide", c["nwb"]), ("narrow", c["nnb"])):
             impl = tile[kind]
-            # (c) every real job inside one rule of every example map
-            for (ln, s, d) in impl:
-                for ex, rules in maps:
-                    for what, a in (("source", s), ("destination", d)):
-                        if not any(lo <= a and a + ln <= hi for _, lo, hi in rules):
-                            rep.fail(f"C19:outside-map:{c['type']}", f"traffic type {c['type']} ({c['rw']}, tile ({x},{y}), "
-                                     f"bursts {c['wbl']}/{c['nbl']}): {what} range [{hex(a)}, +{ln}) of a {kind} job is inside no "
-                                     f"rule of the address map of {ex}", {"run": c, "tile": [x, y]},
-                                     observed=[ln, hex(s), hex(d)], expected="inside one mapped range")
-                            break
             if model is None or impl != model * reps:
                 rep.corr_broken(f"gen_mesh_traffic and the model differ for {c} tile ({x},{y}) {kind}: "
                                 f"impl {impl[:4]} model {model and model[:4]} x{reps}", {"run": c, "tile": [x, y]})
